@@ -34,9 +34,9 @@ def run(ctx):
     R.rule_R4(ctx, typer, funcs)
     R.rule_R6_string_compare(ctx, typer, funcs)
     ctx.floor("R6", 2)
-    ctx.floor("R1", 3)
+    ctx.floor("R1", 2)
     ctx.floor("R2", 5)
-    ctx.floor("R3", 6)
-    ctx.floor("R4", 15)
+    ctx.floor("R3", 3)
+    ctx.floor("R4", 10)
     ctx.extra["functions_reachable_from_get"] = [f.qual for f in funcs]
     ctx.extra.update(resolution_stats(typer))
